@@ -188,7 +188,7 @@ def read_sav(path):
     return {s: dict(c[s]) for s in c.sections()}
 
 
-def run_main(root, argv, events=(), fail_stderr_after=None, clock_step=None):
+def run_main(root, argv, events=(), fail_stderr_after=None, clock_step=None, stdin_isatty=None):
     """Runs the real pcfg_guesser.main() with __file__ pointing into `root` (so Rules/ and *.sav live there).
 
     root: scratch directory containing Rules/<name>/...; argv: command line without the program name.
@@ -301,11 +301,37 @@ def run_main(root, argv, events=(), fail_stderr_after=None, clock_step=None):
 
             def __getattr__(self, name):
                 return getattr(saved['sr_time'], name)
+    saved['stdin'] = sys.stdin
+    if stdin_isatty is not None:
+        class _Stdin:
+            # what the process would see as sys.stdin: a terminal or not (the keyboard itself is the harness' input())
+            closed = False
+            encoding = 'utf-8'
+
+            def isatty(self):
+                return bool(stdin_isatty)
+
+            def readline(self, *a):
+                return ''
+
+            def read(self, *a):
+                return ''
+
+            def fileno(self):
+                raise OSError('no file descriptor (harness stdin)')
     try:
+        if stdin_isatty is not None:
+            sys.stdin = _Stdin()
         if clock_step is not None:
             sr.time = _Clock()
         cs.threading = types.SimpleNamespace(Thread=T, main_thread=threading.main_thread)
-        cs.time = types.SimpleNamespace(sleep=lambda s: None)
+        class _NoSleep:
+            # the session module's `time`: sleep() returns at once, everything else is the real module
+            sleep = staticmethod(lambda s_: None)
+
+            def __getattr__(self, name):
+                return getattr(saved['time'], name)
+        cs.time = _NoSleep()
         cs.input = sched.input
         pq.PcfgQueue.next = next_
         pgm.PcfgGrammar.print_guess = print_
@@ -328,6 +354,7 @@ def run_main(root, argv, events=(), fail_stderr_after=None, clock_step=None):
         cs.threading = saved['threading']
         cs.time = saved['time']
         sr.time = saved['sr_time']
+        sys.stdin = saved['stdin']
         if saved['input'] is None:
             cs.__dict__.pop('input', None)
         else:
